@@ -816,7 +816,9 @@ class ESME:
                     orig_message: Optional[SubmitSm] = await self.correlator.get_delivery(
                         smpp_message
                     )
-                    if orig_message:
+                    # A message that was not segmented has no segment status, whichever newer
+                    # message uses its sequence number by now
+                    if orig_message and 0 < orig_message.get_segmentation_data()[2] <= 255:
                         segment_status: Optional[SegmentStatus]
                         status_code: int
                         segment_status, status_code = await self.correlator.get_segmented(
